@@ -1213,3 +1213,75 @@ impl Modeled for SharedNode {
 		1
 	}
 }
+
+// ---------------------------------------------------------------------------------------------
+// Round 5
+// ---------------------------------------------------------------------------------------------
+
+/// Derived struct / enum whose LAST fields occupy memory but encode to nothing: at the tail of
+/// the input fewer bytes remain than there are fields to decode.
+#[derive(Encode, Decode, DecodeWithMemTracking, PartialEq, Debug, Clone)]
+pub struct TailEmpty {
+	pub id: u8,
+	pub cache: AllSkipped,
+	pub b: Box<()>,
+	pub more: (AllSkipped, Box<()>),
+}
+impl Modeled for TailEmpty {
+	fn ty(d: usize) -> String {
+		format!("tup 4 u8 {} box 0 unit tup 2 {} box 0 unit", AllSkipped::ty(d), AllSkipped::ty(d))
+	}
+	fn val(&self, out: &mut String, c: bool) {
+		write!(out, "L 4 n{} ", self.id).unwrap();
+		self.cache.val(out, c);
+		out.push_str(" U L 2 ");
+		self.more.0.val(out, c);
+		out.push_str(" U");
+	}
+	fn gen(g: &mut G) -> Self {
+		TailEmpty { id: u8::gen(g), cache: AllSkipped::gen(g), b: Box::new(()), more: (AllSkipped::gen(g), Box::new(())) }
+	}
+	fn min_len() -> usize {
+		1
+	}
+}
+#[derive(Encode, Decode, DecodeWithMemTracking, PartialEq, Debug, Clone)]
+pub enum TailEmptyE {
+	#[codec(index = 3)]
+	Stats(AllSkipped),
+	Other(u8),
+	Both { a: Box<()>, c: AllSkipped },
+}
+impl Modeled for TailEmptyE {
+	fn ty(d: usize) -> String {
+		format!("enum 3 3 tup 1 {} 1 tup 1 u8 2 tup 2 box 0 unit {}", AllSkipped::ty(d), AllSkipped::ty(d))
+	}
+	fn val(&self, out: &mut String, c: bool) {
+		match self {
+			TailEmptyE::Stats(s) => {
+				out.push_str("V 3 L 1 ");
+				s.val(out, c)
+			},
+			TailEmptyE::Other(b) => write!(out, "V 1 L 1 n{}", b).unwrap(),
+			TailEmptyE::Both { c: cc, .. } => {
+				out.push_str("V 2 L 2 U ");
+				cc.val(out, c)
+			},
+		}
+	}
+	fn gen(g: &mut G) -> Self {
+		match g.rng.below(3) {
+			0 => TailEmptyE::Stats(AllSkipped::gen(g)),
+			1 => TailEmptyE::Other(u8::gen(g)),
+			_ => TailEmptyE::Both { a: Box::new(()), c: AllSkipped::gen(g) },
+		}
+	}
+	fn min_len() -> usize {
+		1
+	}
+}
+
+/// `repr(transparent)` newtype over a megabyte array: decoded in place behind holders.
+#[derive(Encode, Decode)]
+#[repr(transparent)]
+pub struct TransBig(pub [u8; 1 << 20]);
